@@ -602,3 +602,171 @@ def c08_family(tier, rnd):
              Open(rep=(False, "x", al.call("repeat", [RANGE(2)])), sattr=[]), Text("m"), CLOSE, CLOSE]
     progs.append(program(items, al.dom, fam="C08:place:nopre"))
     return progs
+
+
+# ------------------------------------------------------------------ C09 (METAL)
+def _P(names=("x", "g")):
+    parts = []
+    for n in names:
+        parts.append(pipe(var(n), const(S("u0"))))
+        parts.append(",")
+    return parts
+
+
+def mk_macro(al, name, slots, tag="div", local_def=False, global_def=False, rep=False, inner_use=None, ext=None, fills=()):
+    """items of a macro-defining element: slots = list of slot names (repeats allowed)"""
+    kw = {}
+    defs = []
+    if local_def:
+        defs.append((False, "x", al.call("define", [S("b")])))
+    if global_def:
+        defs.append((True, "g", al.call("define", [S("c")])))
+    if rep:
+        kw["rep"] = (False, "y", al.call("repeat", [SEQ([S("a"), S("b")])]))
+    items = [Open(dm=name, name=tag, sattr=["class"], define=defs, um=ext, **kw)]
+    if ext is None:
+        items.append(Text("M%s[" % name, *_P()))
+        for n, s in enumerate(slots):
+            items.append(Open(ds=s, name="span", sattr=[]))
+            items.append(Text("D%s%d" % (s, n), *_P()))
+            items.append(CLOSE)
+            items.append(Text("|"))
+        if inner_use:
+            items += inner_use
+        items.append(Text("]"))
+    else:
+        items.append(Text("ignored"))
+        for f in fills:
+            items += f
+    items.append(CLOSE)
+    return items
+
+
+def mk_fill(slot, label, body=None, tag="b", dslot=None):
+    items = [Open(fs=slot, name=tag, sattr=[]), Text("F%s[" % label, *_P())]
+    if body:
+        items += body
+    if dslot:
+        items += [Open(ds=dslot, name="i", sattr=[]), Text("D" + dslot), CLOSE]
+    items += [Text("]"), CLOSE]
+    return items
+
+
+def mk_use(name, lib, fills=(), ext=False, tag="section"):
+    items = [Open(um=(name, lib, ext), name=tag, sattr=[]), Text("ignored-content")]
+    for f in fills:
+        items += f
+    items.append(CLOSE)
+    return items
+
+
+def c09_family(tier, rnd):
+    quick = tier == "quick"
+    progs = []
+
+    def build(main_items, lib_items, al, fam, lib2_items=None, init=None):
+        items = list(main_items)
+        main = len(items)
+        libs = []
+        if lib_items is not None:
+            libs.append({"from": len(items) + 1, "to": len(items) + len(lib_items)})
+            items += lib_items
+        if lib2_items is not None:
+            libs.append({"from": len(items) + 1, "to": len(items) + len(lib2_items)})
+            items += lib2_items
+        progs.append(program(items, al.dom, init=init or {}, main=main, libs=libs, fam="C09:" + fam))
+    slotsets = [[], ["a"], ["a", "b"], ["a", "a"], ["a", "b", "a"]]
+    fillsets = [[], ["a"], ["b"], ["a", "b"], ["z"], ["a", "z"]]
+    if quick:
+        combos = [(s, f) for s in slotsets for f in fillsets]
+        combos = rnd.sample(combos, 14)
+    else:
+        combos = [(s, f) for s in slotsets for f in fillsets]
+    # P1: one macro in another template / in the same template, callers filling subsets of slots + unknown
+    for sl, fl in combos:
+        for same in (False, True):
+            al = Alloc(tier)
+            m = mk_macro(al, "m1", sl)
+            use = mk_use("m1", 0 if same else 1, [mk_fill(s, s + "1") for s in fl])
+            main = [Text("pre\n ", *_P())] + use + [Text("post", *_P())]
+            if same:
+                build(main + [Text("\n")] + m, None, al, "P1same:%s:%s" % ("".join(sl), "".join(fl)))
+            else:
+                build(main, [Text("lib\n")] + m + [Text("\n")], al, "P1:%s:%s" % ("".join(sl), "".join(fl)))
+    # P2: use inside repeat / define; macro reads the caller's variables; macro locals / globals
+    for ld, gd, rp in itertools.product([False, True], repeat=3):
+        al = Alloc(tier)
+        m = mk_macro(al, "m1", ["a"], local_def=ld, global_def=gd, rep=rp)
+        use = mk_use("m1", 1, [mk_fill("a", "a1")])
+        main = [Text("pre", *_P()), Open(name="ul", rep=(False, "x", al.call("repeat", [SEQ([S("a"), S("b")])])), sattr=[]),
+                Text("\n  ")] + use + [Text("r", *_P()), CLOSE, Text("post", *_P())]
+        build(main, m, al, "P2:%s%s%s" % (int(ld), int(gd), int(rp)))
+    # P3: a filler that uses another macro; fillers naming slots of the inner macro only
+    for outer_fill in (["a"], ["a", "c"], ["c"]):
+        al = Alloc(tier)
+        m1 = mk_macro(al, "m1", ["a"])
+        m2 = mk_macro(al, "m2", ["c"], tag="p")
+        inner = mk_use("m2", 1, [mk_fill("c", "c2")], tag="article")
+        fills = []
+        for s in outer_fill:
+            fills.append(mk_fill(s, s + "1", body=inner if s == "a" else None))
+        main = [Text("pre")] + mk_use("m1", 1, fills) + [Text("post")]
+        build(main, m1 + [Text("\n")] + m2, al, "P3:" + "".join(outer_fill))
+    # P4: macro body that itself uses another macro: a filler for a slot the used macro lacks must not reach it
+    for fl in ([], ["c"], ["a", "c"]):
+        al = Alloc(tier)
+        m2 = mk_macro(al, "m2", ["c"], tag="p")
+        m1 = mk_macro(al, "m1", ["a"], inner_use=mk_use("m2", 1, [], tag="article"))
+        main = [Text("pre")] + mk_use("m1", 1, [mk_fill(s, s + "1") for s in fl]) + [Text("post")]
+        build(main, m1 + [Text("\n")] + m2, al, "P4:" + "".join(fl))
+    # P5: sibling uses: a filler left over by the first use must not appear in the second
+    for f1, f2 in ((["c"], []), (["a", "c"], []), (["c"], ["c"]), ([], [])):
+        al = Alloc(tier)
+        m1 = mk_macro(al, "m1", ["a"])
+        m2 = mk_macro(al, "m2", ["c"], tag="p")
+        main = ([Text("pre")] + mk_use("m1", 1, [mk_fill(s, s + "1") for s in f1]) + [Text("mid")]
+                + mk_use("m2", 1, [mk_fill(s, s + "2") for s in f2], tag="article") + [Text("post")])
+        build(main, m1 + [Text("\n")] + m2, al, "P5:%s/%s" % ("".join(f1), "".join(f2)))
+    # P6: extend-macro chains
+    for fl in ([], ["a"], ["c"], ["a", "c"], ["b"]):
+        al = Alloc(tier)
+        base = mk_macro(al, "m1", ["a", "b"])
+        ext = mk_macro(al, "m2", [], tag="p", ext=("m1", 1, True), fills=[mk_fill("a", "aE", dslot="c")])
+        main = [Text("pre")] + mk_use("m2", 1, [mk_fill(s, s + "U") for s in fl]) + [Text("post")]
+        build(main, base + [Text("\n")] + ext, al, "P6:" + "".join(fl))
+    # P7: a whole template used as macro
+    for fl in ([], ["a"]):
+        al = Alloc(tier)
+        lib2 = [Text("T2[", *_P()), Open(ds="a", name="span", sattr=[]), Text("Da"), CLOSE, Text("]")]
+        main = [Text("pre")] + [Open(um=(None, 1, False), name="section", sattr=[]), Text("ign")] + \
+            sum([mk_fill(s, s + "1") for s in fl], []) + [CLOSE, Text("post")]
+        build(main, lib2, al, "P7:" + "".join(fl), init={"x": S("a")})
+    # P8: macroname is bound to the name used, inside the macro only (machine oracle only)
+    al = Alloc(tier)
+    m = [Open(dm="m1", name="div", sattr=[]), Text("M[", var("macroname"), "]"), CLOSE]
+    main = [Text("pre", pipe(var("macroname"), const(S("u0"))))] + mk_use("m1", 1, []) + [Text("post", pipe(var("macroname"), const(S("u0"))))]
+    build(main, m, al, "P8:macroname")
+    return progs
+
+
+def c12_metal(tier, rnd):
+    """raising points inside macro bodies, fillers and nested uses: the message lists the
+    failing expression and the enclosing use-macro call sites"""
+    progs = []
+    for c in (["KeyError"] if tier == "quick" else ["KeyError", "Custom2", "KeyboardInterrupt"]):
+        for nested in (False, True):
+            al = Alloc(tier)
+            d = [S("a"), EXC(c)]
+            m2 = [Open(dm="m2", name="p", sattr=[]), Text("N[", al.call("content", d), "]"), CLOSE]
+            inner = mk_use("m2", 1, [], tag="article") if nested else []
+            m1 = [Open(dm="m1", name="div", sattr=[]), Text("A\n ", al.call("content", d), "\n"), Open(ds="s", name="i", sattr=[]),
+                  Text("d", al.call("content", d)), CLOSE] + inner + [Text("z", al.call("content", d)), CLOSE]
+            for fl in (False, True):
+                fill = [Open(fs="s", name="b", sattr=[]), Text("F\n  ", al.call("content", d)), CLOSE] if fl else []
+                main = [Text("pre\n ", al.call("content", d)), Open(um=("m1", 1, False), name="section", sattr=[]), Text("ign")] + fill + \
+                    [CLOSE, Text("post", al.call("content", d))]
+                items = list(main)
+                lib = m1 + [Text("\n")] + m2
+                progs.append(program(items + lib, dict(al.dom), main=len(items), libs=[{"from": len(items) + 1, "to": len(items) + len(lib)}],
+                                     fam="C12metal:%s:%s:%s" % (c, nested, fl)))
+    return progs
